@@ -1,4 +1,5 @@
 import GrinVerif.Lemmas.StoreProof
+import GrinVerif.Lemmas.StoreBlocks
 /-! # C08 — pruning, compaction, rewind and reopen never change what the MMR commits to
 
 Property theorems about the model of `store/src/{prune_list,types,leaf_set,pmmr}.rs`
@@ -167,6 +168,18 @@ theorem unit_discard {H : Type} (b : Backend H) (df : AOF Bytes) (hc : Backend.C
     (ops.foldl Backend.Op.apply b).discard = b :=
   Backend.discard_unit hc ops hw
 
+/-- **Nothing reaches the disk before `sync`; `discard` writes nothing** (rolled-back bulk
+appends).  For ANY sequence of `append` / `remove` / `rewind` – no protocol hypothesis, any batch
+size, fixed-size data files and variable-size data files with their size file alike – the durable
+state (`Backend.onDisk`: hash file, data file, size file, leaf-set file, prune-list file) after the
+sequence, and after the sequence followed by `discard`, is the durable state before.  Together
+with `unit_discard` (the in-memory view is restored exactly) this is "a discarded batch leaves the
+files and the view as they were". -/
+theorem unit_disk_untouched {H : Type} (b : Backend H) (ops : List (Backend.Op H)) :
+    (ops.foldl Backend.Op.apply b).onDisk = b.onDisk ∧
+    (ops.foldl Backend.Op.apply b).discard.onDisk = b.onDisk :=
+  Backend.onDisk_unit b ops
+
 /-- `sync` leaves a synced backend, so the two laws compose over histories of units. -/
 theorem sync_clean {H : Type} (b : Backend H) (df : AOF Bytes) (hd : b.dataFile = .fixed df) :
     Backend.CleanFixed b.sync df.flush := Backend.sync_clean hd
@@ -319,12 +332,17 @@ the protocol's bookkeeping (`dirty`, the set `G` of leaves compacted away so far
 cutoff `C`).
 
 **Usage protocol** `RefSt.Proto r ops` – a decidable predicate on the operation list
-(`RefSt.ok`, one operation): sizes stay below `2^64 − 64`; `rewind` only from a synced state, to a
-boundary `C ≤ N' ≤ size`, re-adding only leaf positions of the smaller MMR that no compaction has
-removed (`∉ G`); `compact` and `reopen` only from a synced state, with `K ≤ size`.  (In the node:
-`rewind_rm_pos` holds the leaves spent by the blocks being rewound and rewinds never go below the
-horizon the last compaction used, which gives these conditions.)  `push`, `prune`, `sync`,
-`discard` are unrestricted.  Variable-size data files are not covered (`.fixed` only). -/
+(`RefSt.ok`, one operation): sizes stay below `2^64 − 64`; `rewind` only before the first append
+of a unit of work (several rewinds in a row – the chain rewinds block by block – and rewinds after
+removals are allowed), to a boundary `C ≤ N' ≤ size`, re-adding only leaf positions of the smaller
+MMR that no compaction has removed (`∉ G`); `compact` and `reopen` only from a synced state, with
+`K ≤ size`.  `push`, `prune`, `sync`, `discard` are unrestricted.  Variable-size data files are
+not covered (`.fixed` only).
+
+That the node's bookkeeping yields these conditions is `chain_bookkeeping_conforms` below: block
+boundaries with their unspent sets, `rewind_rm_pos` of a rewind = unspent at the target and spent
+now, `rewind_rm_pos` of a compaction = everything spent by the blocks after the cutoff boundary,
+no rewind below the last cutoff. -/
 
 /-- One operation allowed by the protocol preserves the history invariant `HInv` (store agrees
 with the current reference view; the backend the open unit started from is synced, agrees with
@@ -395,6 +413,63 @@ theorem history_merkle_proofs {H : Type} (el : Bytes → Option Nat) (hf : HashF
     ∀ q, q ∈ r.cur.U → PM.merkleProof hf p q =
       Pmmr.merkleProof hf (Pmmr.Co.allHashes hf (leafFn r.cur.es) r.cur.es.length) q :=
   fun q hq => hinv_merkleProof hf (hinv_run el hf ops _ _ (hinv_init hf) hproto) q hq
+
+/-! ## Block-level histories: the chain's bookkeeping implies the protocol
+
+`Book` (Lemmas/StoreBlocks.lean): the boundaries the chain remembers (leaf count + unspent set at
+the end of each block; working copy and committed copy), the index of the last compaction cutoff,
+and the reference.  `BOp`: `rewindTo j` (one step of `Extension::rewind`: target = boundary `j`,
+`rewind_rm_pos` = unspent there and spent now), `push`, `prune`, `commit` (`sync`, remember the
+boundary), `rollback` (`discard`), `compact c` (`check_compact` with cutoff = boundary `c` and
+`rewind_rm_pos` = every position spent by the blocks after it), `reopen`.  `Book.Ok` is the
+chain's discipline: rewinds before the first append of an extension and never below the last
+cutoff; compaction / reopen between extensions, the cutoff a remembered boundary not below the
+previous one.  `Book.ops` flattens a block-level history to store operations. -/
+
+/-- **The chain's bookkeeping implies the usage protocol of the store**: every block-level history
+of the chain's discipline, flattened to `push` / `prune` / `rewind` / `sync` / `discard` /
+`compact` / `reopen`, satisfies `RefSt.Proto` – so `history_preserves_reference` and
+`history_merkle_proofs` apply to it. -/
+theorem chain_bookkeeping_conforms (l : List BOp) (hok : Book.Ok {} l) :
+    RefSt.Proto {} (Book.ops {} l) := (book_run binv_init l hok).1
+
+/-- **Block-level invariant**: along every such history no leaf compacted away so far (`G`) is
+unspent now or at any remembered boundary from the last compaction cutoff on – including leaves a
+compaction had to protect because they were spent inside the horizon (they were in
+`rewind_rm_pos`) and that a later rewind made unspent again. -/
+theorem protected_never_compacted (l : List BOp) (hok : Book.Ok {} l) :
+    let bk := Book.run {} l
+    (∀ q ∈ bk.r.cur.U, q ∉ bk.r.G) ∧
+    (∀ k t, bk.minIdx ≤ k → bk.chain[k]? = some t → ∀ q ∈ t.U, q ∉ bk.r.G) := by
+  intro bk
+  obtain ⟨_, h2, _⟩ := book_run binv_init l hok
+  exact ⟨fun q hq => (h2.work.curU q hq).2.2, h2.work.prot⟩
+
+/-- **No prune-list entry covers an unspent-or-protected leaf.**  After every block-level history
+of the chain's discipline the prune list of the store (as `check_compact` built it from
+`LeafSet::removed_pre_cutoff(cutoff_pos, rewind_rm_pos)`, cutoff position and `rewind_rm_pos`
+OR-ed back exactly as the code does) prunes neither a currently unspent leaf nor a leaf that is
+unspent at a boundary a rewind may still target; the prune list re-read from its file is that
+list.  (The harness line `store covered` and its oracle evaluate exactly this on the
+implementation.) -/
+theorem protected_never_pruned {H : Type} (el : Bytes → Option Nat) (hf : HashFn Bytes H)
+    (l : List BOp) (hok : Book.Ok {} l) :
+    let bk := Book.run {} l
+    let p := (Book.ops {} l).foldl (bstep el hf) ({} : PM H)
+    (∀ q ∈ bk.r.cur.U, p.b.pruneList.isPruned q = false) ∧
+    (∀ k t, bk.minIdx ≤ k → bk.chain[k]? = some t → ∀ q ∈ t.U, p.b.pruneList.isPruned q = false) ∧
+    PruneList.openBm p.b.pruneFile = p.b.pruneList :=
+  protected_not_pruned el hf l hok
+
+/-- the five-step shape at block level: three leaves (the boundary ends on a leaf: position 3 is
+the third leaf and 1-based position 4 = the cutoff), commit; one more leaf, commit; the next block
+spends exactly the last leaf of the first boundary, commit; compaction with the first boundary as
+cutoff (the spend is inside the horizon: `rewind_rm_pos = [4]`); a fork: rewind block by block to
+the boundary before the spend (the leaf is unspent again), spend its sibling (position 4), append,
+commit; one more block; compaction at the head; reopen -/
+def cutoffShape : List BOp :=
+  [.push [1], .push [2], .push [3], .commit, .push [4], .commit, .prune 3, .commit,
+   .compact 1, .rewindTo 2, .prune 4, .push [5], .commit, .push [6], .commit, .compact 4, .reopen]
 
 /-! ## Non-vacuity -/
 
@@ -582,5 +657,27 @@ example : RefSt.Proto {} [.push [1], .push [2], .push [3], .push [4], .sync, .pr
     and_true, true_and]
   refine ⟨hb _ (by omega), hb _ (by omega), hb _ (by omega), hb _ (by omega), ?_⟩
   simp [m4, hl0, hl1]
+
+-- the hypothesis of the three theorems is satisfiable by that history: it obeys the chain's
+-- discipline, the first compaction really passes the cutoff position in `rewind_rm_pos`, and
+-- the rewind really re-adds it
+example : Book.Ok {} cutoffShape ∧
+    (Book.ops {} cutoffShape)[8]? = some (.compact 3 [4]) ∧
+    (Book.ops {} cutoffShape)[9]? = some (.rewind 4 [4]) := by
+  have hb : ∀ n, n ≤ 10 → mmr n + 64 < 2 ^ 64 := fun n hn => by
+    have := Pmmr.Co.mmr_le_two_mul n; omega
+  have m0 : mmr 0 = 0 := by simp [mmr, popcount]
+  have m1 : mmr 1 = 1 := mmr_vals.1
+  have m2 : mmr 2 = 3 := mmr_vals.2.1
+  have m3 : mmr 3 = 4 := by simp [mmr, popcount]
+  refine ⟨?_, ?_, ?_⟩
+  · simp only [cutoffShape, Book.Ok, Book.ok, Book.step, Book.emit, RefSt.step, List.length_append,
+      List.length_cons, List.length_nil, List.take, and_true, true_and]
+    refine ⟨hb _ (by omega), hb _ (by omega), hb _ (by omega), hb _ (by omega), ?_⟩
+    simp [spentAfter, rmOf, m0, m1, m2, m3]
+    refine ⟨hb _ (by omega), hb _ (by omega)⟩
+  · simp [cutoffShape, Book.ops, Book.step, Book.emit, RefSt.step, spentAfter, rmOf, m0, m1, m2, m3]
+  · simp [cutoffShape, Book.ops, Book.step, Book.emit, RefSt.step, spentAfter, rmOf, m0, m1, m2, m3]
+
 
 end GV.Props.C08
